@@ -195,6 +195,91 @@ fn run_stream(script: &str) -> String {
     out.join(" ")
 }
 
+// ---- StreamSource with an external producer (same case lines as ocaml/m_streamq.ml): the stream is a queue the test pushes into;
+// polled while empty and open it stores the waker; a push / close wakes a stored waker
+struct QShared {
+    q: std::collections::VecDeque<u64>,
+    closed: bool,
+    waker: Option<std::task::Waker>,
+}
+struct QStream(std::rc::Rc<std::cell::RefCell<QShared>>);
+impl futures_core::Stream for QStream {
+    type Item = u64;
+    fn poll_next(self: Pin<&mut Self>, cx: &mut Context<'_>) -> Poll<Option<u64>> {
+        let mut sh = self.0.borrow_mut();
+        if let Some(v) = sh.q.pop_front() {
+            Poll::Ready(Some(v))
+        } else if sh.closed {
+            Poll::Ready(None)
+        } else {
+            sh.waker = Some(cx.waker().clone());
+            Poll::Pending
+        }
+    }
+}
+
+fn run_streamq(line: &str) -> String {
+    use calloop::stream::StreamSource;
+    let shared = std::rc::Rc::new(std::cell::RefCell::new(QShared { q: Default::default(), closed: false, waker: None }));
+    let mut event_loop: EventLoop<'static, Vec<String>> = EventLoop::try_new().expect("loop");
+    let src = StreamSource::new(QStream(shared.clone())).expect("stream");
+    let token = event_loop
+        .handle()
+        .insert_source(src, |item, _, out: &mut Vec<String>| match item {
+            Some(v) => out.push(format!("I{}", v)),
+            None => out.push("END".into()),
+        })
+        .expect("insert");
+    let mut out = vec![];
+    for op in line.split_whitespace() {
+        match op.as_bytes()[0] {
+            b'u' => {
+                let v: u64 = op[1..].parse().unwrap_or(0);
+                let w = {
+                    let mut sh = shared.borrow_mut();
+                    if sh.closed {
+                        None
+                    } else {
+                        sh.q.push_back(v);
+                        sh.waker.take()
+                    }
+                };
+                if let Some(w) = w {
+                    w.wake();
+                }
+            }
+            b'c' => {
+                let w = {
+                    let mut sh = shared.borrow_mut();
+                    if sh.closed {
+                        None
+                    } else {
+                        sh.closed = true;
+                        sh.waker.take()
+                    }
+                };
+                if let Some(w) = w {
+                    w.wake();
+                }
+            }
+            b'd' => {
+                let _ = event_loop.dispatch(Some(Duration::ZERO), &mut out);
+            }
+            _ => {}
+        }
+    }
+    out.push(if event_loop.handle().update(&token).is_ok() { "STILL".into() } else { "REMOVED".into() });
+    out.join(" ")
+}
+
+pub fn run_streamq_cases() {
+    crate::for_each_line(|l| {
+        let s = l.trim().to_string();
+        let r = std::panic::catch_unwind(move || run_streamq(&s)).unwrap_or_else(|_| "PANIC".to_string());
+        println!("{}", r);
+    });
+}
+
 pub fn run_streams() {
     crate::for_each_line(|l| {
         let s = l.trim().to_string();
